@@ -4,30 +4,6 @@ From Coq Require Import Lia Permutation.
 From Curies.model Require Import Str PyData Trie Conv Query Val Answer Spec CheckQ Mutate Reconcile.
 From Curies.proofs Require Import StrFacts TrieFacts DictFacts IndexFacts QueryFacts CheckFacts SortFacts C04Facts MutateFacts ReconcileFacts.
 
-Definition tagged := list (str * record).      (* (original canonical prefix, current record), converter order *)
-
-Definition renamed (rc : record) (old new : str) (handover : bool) : record :=
-  {| r_prefix := new; r_uri := r_uri rc;
-     r_psyn := if handover then sort_uniq (diff2 (r_psyn rc ++ [r_prefix rc]) old new)
-               else sort_uniq (diff1 (r_psyn rc ++ [r_prefix rc]) new);
-     r_usyn := r_usyn rc; r_pat := r_pat rc |}.
-Definition handover_cond (c : conv) (m : list (str * str)) (intersection : list str) (old : str) : bool :=
-  mem old intersection && existsb (fun kv => str_eqb (snd kv) old && dhas (fst kv) (synmap c)) m.
-
-(* the effect of one pair on the current records (bookkeeping and errors left out) *)
-Definition step_cur (c : conv) (m : list (str * str)) (intersection : list str) (cur : tagged) (on : str * str) : tagged :=
-  let '(old, new) := on in
-  match std c old with
-  | None => cur
-  | Some orig =>
-      match List.find (fun or => str_eqb (fst or) orig) cur with
-      | None => cur
-      | Some (_, rc) =>
-          let clash := match cur_get_record cur new with Some (o2, _) => negb (str_eqb o2 orig) | None => false end in
-          if clash then cur else set_cur orig (renamed rc old new (handover_cond c m intersection old)) cur
-      end
-  end.
-
 Lemma remap_step_cur c m inter st on st' : remap_step c m inter (Val st) on = Val st' ->
   rs_cur st' = step_cur c m inter (rs_cur st) on.
 Proof.
